@@ -34,10 +34,13 @@ static void radii(double d, int join, double tol, int64_t S, int64_t guard, int6
     double D = fabs(d) * (double)S;
     double sag = 0;
     double reach = 1;
-    if (join == 2) {  // round: ArcTolerance = D (1 - cos(pi / tolerance)), Clipper caps it at D / 4
-        double a = d > 0 ? D * (1.0 - cos(M_PI / tol)) : 0.25;
-        if (a <= 0) a = 0.25;
-        sag = std::min(a, 0.25 * D) + 1.0;  // + the "excessive precision" cap of the step count, below one unit
+    if (join == 2) {
+        // round: "up to the arc resolution".  tolerance = segments per full circle: nominal half step
+        // pi / tolerance, ArcTolerance = D (1 - cos(pi / tolerance)).  Clipper rounds the number of
+        // segments of each corner to the nearest integer, so one chord can span up to 1.5 nominal
+        // steps: the allowance is the sagitta of such a chord (and never less than a grid unit).
+        double th = std::min(1.5 * M_PI / tol, M_PI / 2);
+        sag = D * (1.0 - cos(th)) + 1.0;
     } else if (join == 0) {
         reach = tol;  // MiterLimit = tolerance (the property speaks of tolerance >= 2, see the report for < 2)
     } else {
@@ -150,7 +153,7 @@ static void outside_probes(Rng& g, const DGroup& G, const Frame& f, std::vector<
 }
 
 static void run_off(Out& out, Rng& g, const DGroup& G, double d, int join, double tol, int64_t S, bool use_union,
-                    const std::string& scen) {
+                    const std::string& scen, bool literal = false) {
     bool err = false;
     DGroup R = call_offset(G, d, join, tol, S, use_union, err);
     Frame f;
@@ -189,14 +192,36 @@ static void run_off(Out& out, Rng& g, const DGroup& G, double d, int join, doubl
             }
         }
     std::vector<FPt> probes;
-    const char* mode = d > 0 ? "g" : (use_union ? "u" : "e");
-    if (d < 0 && use_union) outside_probes(g, G, f, probes);
+    // d < 0 without the union option: each polygon is eroded on its own, which is the erosion of
+    // the group only when the polygons do not overlap.  When they may overlap (bounding boxes meet)
+    // only the "nothing shallower is kept" half is checked (mode r); see the report: Clipper's
+    // negative offset of overlapping polygons removes deep points around interior corners.
+    bool may_overlap = false;
+    for (size_t i = 0; i < G.size(); i++)
+        for (size_t j = i + 1; j < G.size(); j++) {
+            double b[2][4];
+            const DPoly* pp[2] = {&G[i], &G[j]};
+            for (int k = 0; k < 2; k++) {
+                b[k][0] = b[k][2] = 1e300;
+                b[k][1] = b[k][3] = -1e300;
+                for (auto& v : *pp[k]) {
+                    b[k][0] = std::min(b[k][0], v.x);
+                    b[k][1] = std::max(b[k][1], v.x);
+                    b[k][2] = std::min(b[k][2], v.y);
+                    b[k][3] = std::max(b[k][3], v.y);
+                }
+            }
+            if (b[0][0] <= b[1][1] && b[1][0] <= b[0][1] && b[0][2] <= b[1][3] && b[1][2] <= b[0][3]) may_overlap = true;
+        }
+    const char* mode = d > 0 ? "g" : (use_union || literal ? "u" : (may_overlap ? "r" : "e"));
+    if (d < 0 && (use_union || literal)) outside_probes(g, G, f, probes);
     std::string payload = "S " + hex_u64((uint64_t)S) + " K " + std::to_string(f.K) + " MODE " + mode + " RIN " +
                           hex_i128((i128)rin << f.K) + " ROUT " + hex_i128((i128)rout << f.K) + " G " + ser_group(G, f) + " R " +
                           ser_group(R, f) + " Q " + ser_points(probes) + " P " + ser_points(pts);
     // parameters, for replay (not used by the oracle)
     payload += " PARAM " + hex_dbl(d) + " " + std::to_string(join) + " " + hex_dbl(tol) + " " + (use_union ? "1" : "0");
-    std::string id = out.add("off", payload);
+    std::string id = out.add(literal ? "offlit" : "off", payload);
+    out.count(std::string("off:mode:") + mode);
     out.count("off:scenario:" + scen);
     out.count(std::string("off:join:") + JOIN_NAME[join]);
     out.count(d > 0 ? "off:sign:grow" : "off:sign:shrink");
@@ -315,7 +340,9 @@ static bool parse_i128s(const char*& s, i128& v) {
     return true;
 }
 static void run_case(Out& out, Rng& g, const std::string& kind, const std::string& payload) {
-    if (kind != "off") return;
+    // "offlit": the property read literally for the group (depth measured in the covered region) even
+    // without the union option
+    if (kind != "off" && kind != "offlit") return;
     const char* s = payload.c_str();
     i128 S;
     if (strncmp(s, "S ", 2) != 0) return;
@@ -346,7 +373,7 @@ static void run_case(Out& out, Rng& g, const std::string& kind, const std::strin
     unsigned long long db, tb;
     int join, un;
     if (sscanf(pp + 7, "%llx %d %llx %d", &db, &join, &tb, &un) != 4) return;
-    run_off(out, g, G, bits_dbl(db), join, bits_dbl(tb), (int64_t)S, un != 0, "replay");
+    run_off(out, g, G, bits_dbl(db), join, bits_dbl(tb), (int64_t)S, un != 0, "replay", kind == "offlit");
 }
 
 int main(int argc, char** argv) {
